@@ -1,0 +1,14 @@
+//go:build verif
+
+package be
+
+// Contracts for the goblvc verifier (see /verif/DESIGN.md). Comments only.
+//
+// C13 (Belgium): an enterprise number of ten digits (nine-digit codes are padded with a
+// leading zero) whose second digit is not zero is accepted exactly when its last two digits
+// equal 97 minus the first eight digits modulo 97 (published rule; a base divisible by 97
+// has check 97). The format (digits, length) is established by the caller's pattern.
+//@ func commercialCheck(val) (err)
+//@   requires (len(val) == 9 || len(val) == 10) && s_isdigits(val)
+//@   let v10 = ite(len(val) == 9, s_concat("0", val), val)
+//@   ensures [iff] err == nil <==> s_byte(v10, 1) != 48 && dval(s_substr(v10, 8, 10), 2) == 97 - dval(s_substr(v10, 0, 8), 8) % 97
